@@ -1131,6 +1131,14 @@ impl<'a, 'b, W: Write> Serializer for &'a mut YamlSerializer<'b, W> {
                 return Ok(());
             }
 
+            // Block scalar headers are written without node properties, so this node cannot
+            // carry the anchor of a shared pointer. Left pending, the anchor would land on the
+            // next node written and later aliases would refer to that unrelated node. Forget the
+            // pointer instead: this and every later occurrence is written in full.
+            if let Some(id) = self.pending_anchor_id.take() {
+                self.anchors.retain(|_, known| *known != id);
+            }
+
             match style {
                 StrStyle::Literal => {
                     // Determine trailing newline count to select chomp indicator:
